@@ -1,6 +1,6 @@
 (* Extract/ExC07.v -- extraction for family c07 *)
 From Coq Require Import Extraction ExtrOcamlBasic ExtrOcamlString.
-From AT Require Import Num Vec Aff Farkas FM Equiv PTree Cells Abs Ops.
+From AT Require Import Num Vec Aff Farkas FM Equiv PTree Cells Abs Ops Cache Elim EdgeRegion.
 Extraction Blacklist List String Int.
 Extraction "model_c07.ml"
   qc_of_float qz qfrac qleb qltb qeqb Qcplus Qcmult Qcopp Qcminus Qcdiv
@@ -10,4 +10,5 @@ Extraction "model_c07.ml"
   eval term route compose apply_func lift comp_schema wfb outsb size nterms
   pieces tree_equiv check_cex out_eqb
   aget aset alen akeys abs_at abs_tree
-  top tneg top_r top_l map_terms.
+  top tneg top_r top_l map_terms
+  label_rows.
